@@ -15,6 +15,7 @@ func init() {
 	register(&Prop{ID: "C10", Run: runC10,
 		Technique: "static analysis: reaching condition + enum coverage of the retry reset, must-pass-through in the propagation loop, value-flow of recorded parameters / request ids / node tables, field coverage of the recorder and restorer (go/ssa)",
 		Decided: []string{
+			"the already-running probe refuses a retry only when the live status could not be read or is not `not started` - never on what the recorded run says (C16.probe-table, shared)",
 			"the set of recorded states under which a node is reset, united with the kept states {finished, skipped} and the already-runnable state {not started}, covers every NodeStatus constant (C10.reset-exhaustive)",
 			"the downstream mark is applied for every out-edge of a node marked for retry and every out-neighbour is re-queued (C10.propagate)",
 			"the retry graph runs the same edge/cycle setup before the reset and returns its error (C10.same-checks)",
@@ -37,6 +38,7 @@ func runC10(e *Env) {
 	c10Flows(e, s)
 	c08PersistedFields(e, s)
 	c01Gate(e, s)
+	c16ProbeTable(e) // a retry is refused only on live evidence, never because the recorded run says `running`
 }
 
 func c10Reset(e *Env, s *Sched) {
